@@ -16,7 +16,7 @@ RESP = 'smbus_response::MCTPSMBusContextResponse'
 CTX = "smbus::MCTPSMBusContext::<'_>"
 TRAIT = 'mctp_traits::SMBusMCTPRequestResponse'
 
-ENGINE_VERSION = '22'
+ENGINE_VERSION = '23'
 
 
 def vendor_format_domain(name):
@@ -134,8 +134,8 @@ class Analysis:
         s['entries'] += 1
         s['leaves'] += stats['leaves']
 
-    GLOBAL_STEP_BUDGET = 5000000
-    MAX_LEAVES_PER_ENTRY = 1000
+    GLOBAL_STEP_BUDGET = 9000000
+    MAX_LEAVES_PER_ENTRY = 3000
 
     def compute(self, spec, make_args=None, init_know=None):
         it = Interp(self.prog)
